@@ -64,8 +64,15 @@ const POOL: &[PoolVal] = &[
     PoolVal { src: "(\\x, y -> x)", big: false },
     PoolVal { src: "+", big: false },
     PoolVal { src: "len", big: false },
+    // containers that are not valid keys only because of something nested inside them
+    PoolVal { src: "{1: len}", big: false },
+    PoolVal { src: "[{0: (\\x -> x)}]", big: false },
+    // finite streams whose production raises part-way (the error must surface as a catchable error in
+    // every consumer, and must end the stream)
+    PoolVal { src: "(iterate(0, \\x -> if (x > 3) throw \"boom\" else x + 1) lazy_filter (\\x -> x % 2 == 0))", big: false },
+    PoolVal { src: "([1, 0, 2] lazy_map (\\x -> 1 // x))", big: false },
 ];
-const QUICK_POOL: &[usize] = &[0, 1, 2, 3, 5, 7, 8, 9, 10, 13, 14, 16, 17, 18, 19, 20, 22, 23, 25, 27, 28, 29, 30, 32];
+const QUICK_POOL: &[usize] = &[0, 1, 2, 3, 5, 7, 8, 9, 10, 13, 14, 16, 17, 18, 19, 20, 22, 23, 25, 27, 28, 29, 30, 32, 34, 35, 36, 37];
 
 #[derive(Clone)]
 struct Case {
@@ -148,25 +155,7 @@ fn child(args: &Args) {
     let cases = build_cases(&args.tier, args.seed, &names);
     let pool_vals: Vec<Obj> = POOL.iter().map(|p| it.eval_obj(p.src).unwrap_or(Obj::Null)).collect();
     let _ = it.eval_obj("canary := 42");
-    // watchdog
-    let started = Arc::new(AtomicU64::new(0));
-    let current = Arc::new(AtomicU64::new(u64::MAX));
-    {
-        let (started, current) = (started.clone(), current.clone());
-        std::thread::spawn(move || loop {
-            std::thread::sleep(std::time::Duration::from_millis(200));
-            let cur = current.load(Ordering::SeqCst);
-            if cur != u64::MAX {
-                let t0 = started.load(Ordering::SeqCst);
-                let now = std::time::SystemTime::now().duration_since(std::time::UNIX_EPOCH).unwrap().as_millis() as u64;
-                if now > t0 + 4000 {
-                    println!("H\t{}", cur);
-                    let _ = std::io::stdout().flush();
-                    std::process::exit(3);
-                }
-            }
-        });
-    }
+    let (started, current) = start_watchdog();
     let out = std::io::stdout();
     for (k, c) in cases.iter().enumerate() {
         if (k as u64) % nshards != shard || c.id < from {
@@ -219,54 +208,204 @@ fn child(args: &Args) {
     println!("D");
 }
 
-fn main() {
-    let args = parse_args();
-    if args.extra.first().map(|s| s.as_str()) == Some("--child") {
-        child(&args);
-        return;
-    }
-    install_quiet_panic_hook();
-    let mut rep = Report::new("C14", &args);
-    rep.rule = "sweep: every global builtin (minus the file/process/network/clock/sleep/stdin list) x every tuple of 0..2 arguments \
-                from the pool (20 values quick / 30 thorough: null, ints incl. +-2^63 / 2^64, rational, floats incl. NaN and inf, \
-                complex, strings incl. non-ASCII, lists, dicts with and without default, vectors, bytes incl. non-UTF-8, finite \
-                stream, closures, builtins) plus sampled 3-tuples, called through Func::run under catch_unwind in child \
-                processes with a 4 s per-case watchdog and a 6 GiB address-space limit; numeric-size builtins are skipped when an \
-                argument is astronomically large. Then try/catch containment through source programs and fault-injected \
-                generated programs. non-trivial = a call that raised or returned normally with >= 1 argument; distinct = \
-                distinct call text"
-        .into();
-    let it = Interp::new();
-    let names = builtin_names(&it);
-    let cases = build_cases(&args.tier, args.seed, &names);
-    let by_id: std::collections::HashMap<u64, &Case> = cases.iter().map(|c| (c.id, c)).collect();
+const STMT_TEMPLATES: &[&str] = &[
+    "x := A; x[B] = C; x",
+    "x := A; x[B] += C; x",
+    "x := A; x[B] $= C; x",
+    "x := A; x[B] append= C; x",
+    "x := A; x[B][C] = 1; x",
+    "x := A; pop x[B]; x",
+    "x := A; remove x[B]; x",
+    "x := A; remove x[B:C]; x",
+    "x := A; every x[B:C] = 0; x",
+    "x := A; every x[B:] += C; x",
+    "x := A; x{B = C}",
+    "x := A; consume x[B]; x",
+    "A[B]",
+    "A[B:C]",
+    "A[B:]",
+    "A[:C]",
+    "a, b := A; [a, b]",
+    "a, ...b := A; [a, b]",
+    "a, ...b, c := A; [a, b, c]",
+    "a, b = 1 := A",
+    "switch (A) case B -> 1 case _ -> 2",
+    "switch (A) case [x, B] -> x case _ -> 2",
+    "switch (A) case x + B -> x case _ -> 2",
+    "switch (A) case x .+ y -> [x, y] case xs +. y -> [xs, y] case _ -> 2",
+    "(for (p <- A) yield p)",
+    "(for (p, q <<- A) yield [p, q])",
+    "(for (p <- A) yield p: B)",
+    "x: B = A; x",
+    "x := A; swap x, x[B]; x",
+    "A B C",
+    "F\"{A #B}\"",
+    "f := \\a, ...b, c = B -> [a, b, c]; f(...A)",
+    "x := A; x::precedence = B; x",
+    "struct Pt(px, py = B); p := Pt(A); p[px] = C; p",
+    "{A: B}",
+    "{A, B}",
+    "x := {}; x[A] = B; x",
+    "x := {:0}; x[A] += 1; x",
+    "if (A) 1 else 2",
+    "A and B",
+    "A or B",
+    "A ?? B",
+    "while (A) break",
+    "x := A; x .= B; x",
+    "a, b = A; [a, b]",
+    "f := \\a, b -> [a, b]; f(...A)",
+    "memo := memoize(\\k -> 1); memo(A)",
+];
 
-    if let Some(path) = &args.replay {
-        let text = std::fs::read_to_string(path).expect("replay file");
-        for line in text.lines() {
-            if let Some(rest) = line.strip_prefix("input: ") {
-                println!("rust: {}", eval_fresh(rest).detail());
+/// the statement sweep's programs, in a fixed order (index = case id)
+fn build_stmts(tier: &str, seed: u64) -> Vec<(usize, String)> {
+    let spool: Vec<usize> = if tier == "thorough" { (0..POOL.len()).collect() } else { QUICK_POOL.to_vec() };
+    let mut srng = Rng::new(seed ^ 0x57A7);
+    let mut out = vec![];
+    for (ti, t) in STMT_TEMPLATES.iter().enumerate() {
+        let three = t.contains('C');
+        let two = three || t.split(|ch: char| !ch.is_alphanumeric() && ch != '_').any(|w| w == "B");
+        for &a in &spool {
+            let bs: Vec<usize> = if two { spool.clone() } else { vec![0] };
+            for &b in &bs {
+                let cs: Vec<usize> = if three {
+                    (0..(if tier == "thorough" { 8 } else { 3 })).map(|_| *srng.pick(&spool)).collect()
+                } else {
+                    vec![0]
+                };
+                for c in cs {
+                    // word-boundary replacement of the placeholders A, B, C
+                    let mut src = String::new();
+                    for tok in t.split_inclusive(|ch: char| !ch.is_alphanumeric() && ch != '_') {
+                        let (word, rest) = match tok.char_indices().last() {
+                            Some((i, ch)) if !ch.is_alphanumeric() && ch != '_' => (&tok[..i], &tok[i..]),
+                            _ => (tok, ""),
+                        };
+                        src.push_str(match word {
+                            "A" => POOL[a].src,
+                            "B" => POOL[b].src,
+                            "C" => POOL[c].src,
+                            w => w,
+                        });
+                        src.push_str(rest);
+                    }
+                    out.push((ti, src));
+                }
             }
         }
-        return;
     }
+    out
+}
 
-    // ------------------------------------------------------------------ 1. the sweep, sharded
+/// per-case watchdog of a child process: prints `H <id>` and exits when a case runs longer than 4 s
+fn start_watchdog() -> (Arc<AtomicU64>, Arc<AtomicU64>) {
+    let started = Arc::new(AtomicU64::new(0));
+    let current = Arc::new(AtomicU64::new(u64::MAX));
+    let (s2, c2) = (started.clone(), current.clone());
+    std::thread::spawn(move || loop {
+        std::thread::sleep(std::time::Duration::from_millis(200));
+        let cur = c2.load(Ordering::SeqCst);
+        if cur != u64::MAX {
+            let t0 = s2.load(Ordering::SeqCst);
+            let now = std::time::SystemTime::now().duration_since(std::time::UNIX_EPOCH).unwrap().as_millis() as u64;
+            if now > t0 + 4000 {
+                println!("H\t{}", cur);
+                let _ = std::io::stdout().flush();
+                std::process::exit(3);
+            }
+        }
+    });
+    (started, current)
+}
+
+/// all source programs of the in-source sections, in a fixed order (index = case id):
+/// (section, template index or 0, builtin name or "", source, fuel)
+fn build_programs(tier: &str, seed: u64, cases: &[Case]) -> Vec<(&'static str, usize, String, String, u64)> {
+    let mut out = vec![];
+    // 2. try/catch containment via source
+    for c in cases.iter().filter(|c| c.args.len() <= 2 && c.name.chars().all(|ch| ch.is_alphanumeric() || ch == '_')).step_by(7) {
+        let call = case_text(c);
+        let src = format!("canary := 42; r := try (({}); \"V\") catch e -> \"C\"; [r, canary]", call);
+        out.push(("contain", 0, c.name.clone(), src, 2_000_000));
+    }
+    // 2b. statement sweep
+    for (ti, src) in build_stmts(tier, seed) {
+        out.push(("stmt", ti, String::new(), src, 300_000));
+    }
+    // 3. fault-injected generated programs
+    let nprog = if tier == "thorough" { 6000 } else { 500 };
+    let mut rng = Rng::new(seed ^ 0xC14);
+    for _ in 0..nprog {
+        let mut g = Gen::new(rng.fork(), 3);
+        let n = 3 + g.rng.below(4) as usize;
+        let at = g.rng.below(n as u64) as usize;
+        let caught = g.rng.chance(1, 2);
+        let prog = g.gen_program(n, Some(at), caught);
+        out.push(("fault", 0, String::new(), prog.src(), 300_000));
+    }
+    out
+}
+
+fn child_stmt(args: &Args) {
+    let shard: u64 = args.extra[1].parse().unwrap();
+    let nshards: u64 = args.extra[2].parse().unwrap();
+    let from: u64 = args.extra[3].parse().unwrap();
+    unsafe {
+        let lim = Rlimit { cur: 6 << 30, max: 6 << 30 };
+        setrlimit(9, &lim);
+    }
+    install_quiet_panic_hook();
+    let names = builtin_names(&Interp::new());
+    let cases = build_cases(&args.tier, args.seed, &names);
+    let progs = build_programs(&args.tier, args.seed, &cases);
+    let (started, current) = start_watchdog();
+    let out = std::io::stdout();
+    for (k, (_, _, _, src, fuel)) in progs.iter().enumerate() {
+        let id = k as u64;
+        if id % nshards != shard || id < from {
+            continue;
+        }
+        {
+            let mut o = out.lock();
+            let _ = writeln!(o, "S\t{}", id);
+            let _ = o.flush();
+        }
+        let now = std::time::SystemTime::now().duration_since(std::time::UNIX_EPOCH).unwrap().as_millis() as u64;
+        started.store(now, Ordering::SeqCst);
+        current.store(id, Ordering::SeqCst);
+        let it4 = Interp::new();
+        noulith::verif_set_fuel(*fuel);
+        let res = it4.eval(src);
+        noulith::verif_set_fuel(u64::MAX);
+        current.store(u64::MAX, Ordering::SeqCst);
+        let class = match &res {
+            Outcome::Panic(m) => format!("panic: {}", m.replace('\t', " ").replace('\n', " ")),
+            o => o.class(),
+        };
+        let mut o = out.lock();
+        let _ = writeln!(o, "R\t{}\t{}", id, class);
+    }
+    println!("D");
+}
+
+/// run one kind of child over 14 shards; a child that hangs or dies is restarted past the culprit.
+/// Returns per shard (results, usability probes)
+fn run_shards(mode: &'static str, tier: &str, seed: u64) -> Vec<(Vec<(u64, String)>, Vec<(u64, String)>)> {
     let nshards = 14u64;
     let exe = std::env::current_exe().unwrap();
     let handles: Vec<_> = (0..nshards)
         .map(|shard| {
             let exe = exe.clone();
-            let (tier, seed) = (args.tier.clone(), args.seed);
+            let tier = tier.to_string();
             std::thread::spawn(move || {
-                // (results, hangs, crashes) for this shard; restart after a hang / crash past the culprit
                 let mut results: Vec<(u64, String)> = vec![];
                 let mut usable: Vec<(u64, String)> = vec![];
                 let mut from = 0u64;
                 let mut restarts = 0;
                 loop {
                     let out = std::process::Command::new(&exe)
-                        .args(["--child", &shard.to_string(), &nshards.to_string(), &from.to_string(), "--tier", &tier, "--seed", &seed.to_string()])
+                        .args([mode, &shard.to_string(), &nshards.to_string(), &from.to_string(), "--tier", &tier, "--seed", &seed.to_string()])
                         .output()
                         .expect("spawn child");
                     let text = String::from_utf8_lossy(&out.stdout).to_string();
@@ -307,9 +446,48 @@ fn main() {
             })
         })
         .collect();
+    handles.into_iter().map(|h| h.join().unwrap()).collect()
+}
+
+fn main() {
+    let args = parse_args();
+    if args.extra.first().map(|s| s.as_str()) == Some("--child") {
+        child(&args);
+        return;
+    }
+    if args.extra.first().map(|s| s.as_str()) == Some("--stmt-child") {
+        child_stmt(&args);
+        return;
+    }
+    install_quiet_panic_hook();
+    let mut rep = Report::new("C14", &args);
+    rep.rule = "sweep: every global builtin (minus the file/process/network/clock/sleep/stdin list) x every tuple of 0..2 arguments \
+                from the pool (28 values quick / 38 thorough: null, ints incl. +-2^63 / 2^64, rational, floats incl. NaN and inf, \
+                complex, strings incl. non-ASCII, lists, dicts with and without default, vectors, bytes incl. non-UTF-8, finite \
+                stream, closures, builtins, containers with an unhashable value nested inside, finite streams whose production raises part-way) plus sampled 3-tuples, called through Func::run under catch_unwind in child \
+                processes with a 4 s per-case watchdog and a 6 GiB address-space limit; numeric-size builtins are skipped when an \
+                argument is astronomically large. Then try/catch containment through source programs, the statement sweep (47 statement templates x pool tuples, also in watchdogged child processes) and fault-injected \
+                generated programs. non-trivial = a call that raised or returned normally with >= 1 argument; distinct = \
+                distinct call text"
+        .into();
+    let it = Interp::new();
+    let names = builtin_names(&it);
+    let cases = build_cases(&args.tier, args.seed, &names);
+    let by_id: std::collections::HashMap<u64, &Case> = cases.iter().map(|c| (c.id, c)).collect();
+
+    if let Some(path) = &args.replay {
+        let text = std::fs::read_to_string(path).expect("replay file");
+        for line in text.lines() {
+            if let Some(rest) = line.strip_prefix("input: ") {
+                println!("rust: {}", eval_fresh(rest).detail());
+            }
+        }
+        return;
+    }
+
+    // ------------------------------------------------------------------ 1. the sweep, sharded
     let mut total = 0u64;
-    for h in handles {
-        let (results, usable) = h.join().unwrap();
+    for (results, usable) in run_shards("--child", &args.tier, args.seed) {
         for (id, class) in results {
             total += 1;
             let c = by_id[&id];
@@ -331,129 +509,49 @@ fn main() {
     }
     rep.notes.push(format!("sweep calls executed: {} over {} builtins ({} excluded by name)", total, names.len(), EXCLUDED.len()));
 
-    // ------------------------------------------------------------------ 2. try/catch containment via source
-    let mut contained = 0u64;
-    for c in cases.iter().filter(|c| c.args.len() <= 2 && c.name.chars().all(|ch| ch.is_alphanumeric() || ch == '_')).step_by(7) {
-        let call = case_text(c);
-        let src = format!("canary := 42; r := try (({}); \"V\") catch e -> \"C\"; [r, canary]", call);
-        let it2 = Interp::new();
-        noulith::verif_set_fuel(2_000_000);
-        let out = it2.eval(&src);
-        noulith::verif_set_fuel(u64::MAX);
-        rep.case(&src, true);
-        rep.arm("try-catch-containment");
-        contained += 1;
-        let ok = matches!(&out, Outcome::Ok(s) if s == "[s:56,42]" || s == "[s:43,42]");
-        if !ok {
-            let key = format!("containment:{}", c.name);
-            rep.judge(&key, &src, &out.class(), "ok [s:56|s:43,42]", "ok [s:56|s:43,42]");
-        }
-    }
-    rep.notes.push(format!("try/catch containment programs: {}", contained));
-
-    // ------------------------------------------------------------------ 2b. statement sweep: the mutation,
-    // destructuring and indexing STATEMENTS of the language on every pool value (builtins are only half of
-    // "whatever a program does with the pure part of the language")
-    let templates: &[&str] = &[
-        "x := A; x[B] = C; x",
-        "x := A; x[B] += C; x",
-        "x := A; x[B] $= C; x",
-        "x := A; x[B] append= C; x",
-        "x := A; x[B][C] = 1; x",
-        "x := A; pop x[B]; x",
-        "x := A; remove x[B]; x",
-        "x := A; remove x[B:C]; x",
-        "x := A; every x[B:C] = 0; x",
-        "x := A; every x[B:] += C; x",
-        "x := A; x{B = C}",
-        "x := A; consume x[B]; x",
-        "A[B]",
-        "A[B:C]",
-        "A[B:]",
-        "A[:C]",
-        "a, b := A; [a, b]",
-        "a, ...b := A; [a, b]",
-        "a, ...b, c := A; [a, b, c]",
-        "a, b = 1 := A",
-        "switch (A) case B -> 1 case _ -> 2",
-        "switch (A) case [x, B] -> x case _ -> 2",
-        "switch (A) case x + B -> x case _ -> 2",
-        "switch (A) case x .+ y -> [x, y] case xs +. y -> [xs, y] case _ -> 2",
-        "(for (p <- A) yield p)",
-        "(for (p, q <<- A) yield [p, q])",
-        "(for (p <- A) yield p: B)",
-        "x: B = A; x",
-        "x := A; swap x, x[B]; x",
-        "A B C",
-        "F\"{A #B}\"",
-        "f := \\a, ...b, c = B -> [a, b, c]; f(...A)",
-        "x := A; x::precedence = B; x",
-        "struct Pt(px, py = B); p := Pt(A); p[px] = C; p",
-    ];
-    let spool: Vec<usize> = if args.tier == "thorough" { (0..POOL.len()).collect() } else { QUICK_POOL.to_vec() };
-    let mut nstmt = 0u64;
-    let mut srng = Rng::new(args.seed ^ 0x57A7);
-    for t in templates {
-        let three = t.contains('C');
-        for &a in &spool {
-            for &b in &spool {
-                let cs: Vec<usize> = if three {
-                    (0..(if args.tier == "thorough" { 8 } else { 3 })).map(|_| *srng.pick(&spool)).collect()
-                } else {
-                    vec![0]
-                };
-                for c in cs {
-                    // word-boundary replacement of the placeholders A, B, C
-                    let mut src = String::new();
-                    for tok in t.split_inclusive(|ch: char| !ch.is_alphanumeric() && ch != '_') {
-                        let (word, rest) = match tok.char_indices().last() {
-                            Some((i, ch)) if !ch.is_alphanumeric() && ch != '_' => (&tok[..i], &tok[i..]),
-                            _ => (tok, ""),
-                        };
-                        src.push_str(match word {
-                            "A" => POOL[a].src,
-                            "B" => POOL[b].src,
-                            "C" => POOL[c].src,
-                            w => w,
-                        });
-                        src.push_str(rest);
+    // ------------------------------------------------------------------ 2, 2b, 3: source programs, run in
+    // watchdogged child processes like the sweep (a hang or an abort inside one is attributed to it):
+    // try/catch containment, the statement sweep (the mutation, destructuring and indexing STATEMENTS of
+    // the language on every pool value: builtins are only half of "whatever a program does with the pure
+    // part of the language") and fault-injected generated programs
+    let progs = build_programs(&args.tier, args.seed, &cases);
+    let (mut contained, mut nstmt, mut nfault) = (0u64, 0u64, 0u64);
+    for (results, _) in run_shards("--stmt-child", &args.tier, args.seed) {
+        for (id, class) in results {
+            let (section, ti, name, src, _) = &progs[id as usize];
+            rep.case(src, true);
+            let bad = class.starts_with("panic") || class == "hang" || class.starts_with("abort");
+            let kind = if class.starts_with("panic") { "panic" } else if class == "hang" { "hang" } else { "abort" };
+            rep.outcome(if bad { kind } else { class.split(' ').next().unwrap_or("") });
+            match *section {
+                "contain" => {
+                    rep.arm("try-catch-containment");
+                    contained += 1;
+                    if class != "ok [s:56,42]" && class != "ok [s:43,42]" {
+                        rep.judge(&format!("containment:{}", name), src, &class, "ok [s:56|s:43,42]", "ok [s:56|s:43,42]");
                     }
-                    let it4 = Interp::new();
-                    noulith::verif_set_fuel(300_000);
-                    let out = it4.eval(&src);
-                    noulith::verif_set_fuel(u64::MAX);
-                    nstmt += 1;
-                    rep.case(&src, true);
+                }
+                "stmt" => {
                     rep.arm("statement-sweep");
-                    if let Outcome::Panic(m) = &out {
-                        let key = format!("panic:stmt:{}", t.split(';').last().unwrap_or(t).trim().chars().take(24).collect::<String>().replace(' ', "_"));
-                        rep.judge(&key, &src, &format!("panic: {}", m), "ok-or-throw", "ok-or-throw");
+                    nstmt += 1;
+                    if bad {
+                        let t = STMT_TEMPLATES[*ti];
+                        let key = format!("{}:stmt:{}", kind, t.split(';').last().unwrap_or(t).trim().chars().take(24).collect::<String>().replace(' ', "_"));
+                        rep.judge(&key, src, &class, "ok-or-throw", "ok-or-throw");
+                    }
+                }
+                _ => {
+                    rep.arm("fault-injected-program");
+                    nfault += 1;
+                    if bad {
+                        rep.judge(&format!("{}:generated-program", kind), src, &class, "ok-or-throw", "ok-or-throw");
                     }
                 }
             }
         }
     }
+    rep.notes.push(format!("try/catch containment programs: {}", contained));
     rep.notes.push(format!("statement-sweep programs: {}", nstmt));
-
-    // ------------------------------------------------------------------ 3. fault-injected generated programs
-    let nprog = if args.tier == "thorough" { 6000 } else { 500 };
-    let mut rng = Rng::new(args.seed ^ 0xC14);
-    for _ in 0..nprog {
-        let mut g = Gen::new(rng.fork(), 3);
-        let n = 3 + g.rng.below(4) as usize;
-        let at = g.rng.below(n as u64) as usize;
-        let caught = g.rng.chance(1, 2);
-        let prog = g.gen_program(n, Some(at), caught);
-        let src = prog.src();
-        let it3 = Interp::new();
-        noulith::verif_set_fuel(300_000);
-        let out = it3.eval(&src);
-        noulith::verif_set_fuel(u64::MAX);
-        rep.case(&src, true);
-        rep.arm("fault-injected-program");
-        if let Outcome::Panic(m) = &out {
-            rep.judge("panic:generated-program", &src, &format!("panic: {}", m), "ok-or-throw", "ok-or-throw");
-        }
-    }
+    rep.notes.push(format!("fault-injected generated programs: {}", nfault));
     rep.write(&args.out);
 }
